@@ -20,6 +20,7 @@ import (
 	"strconv"
 	"strings"
 	"sync"
+	"syscall"
 	"time"
 
 	"verif/explore"
@@ -204,8 +205,31 @@ func racePass(work, id, tier string, seed int) (int, map[string]string, string) 
 	}
 	run := exec.Command(bin, "-prop", id, "-racepass", "-budget", budget, "-rlimit-as", "0")
 	run.Env = append(os.Environ(), "GORACE=halt_on_error=0 exitcode=0 history_size=3", fmt.Sprintf("VERIF_SEED=%d", seed))
-	out, err := run.CombinedOutput()
-	text := string(out)
+	var ob bytes.Buffer
+	run.Stdout, run.Stderr = &ob, &ob
+	if err := run.Start(); err != nil {
+		die("starting the -race worker failed: %v", err)
+	}
+	// every body bounds its own waits; a pass that still does not finish has a client call
+	// (QueueRPC, Close, ...) blocked for good: ask for the goroutine dump, then kill it
+	bd, _ := time.ParseDuration(budget)
+	hung := false
+	watchdog := time.AfterFunc(bd+150*time.Second, func() {
+		hung = true
+		run.Process.Signal(syscall.SIGQUIT)
+		time.Sleep(5 * time.Second)
+		run.Process.Kill()
+	})
+	err := run.Wait()
+	watchdog.Stop()
+	text := ob.String()
+	if hung {
+		msg := "the free-running pass did not finish: a client call is blocked for good"
+		if i := strings.Index(text, "SIGQUIT"); i >= 0 {
+			msg += "\n" + tail(text[i:], 6000)
+		}
+		return 0, nil, msg
+	}
 	iters := 0
 	for _, l := range strings.Split(text, "\n") {
 		if strings.HasPrefix(l, "RACEPASS iterations=") {
